@@ -373,7 +373,7 @@ def run_property(prop, tier, jobs, meta, seed=0, procs=None):
                     nxt.append((r['harness'], r['init_pkgs'], lo[k:k + per], o))
             if progress:
                 print('[%d/%d] %.1fs %s %s paths=%s viol=%s %s' % (len(results), len(jobs), r.get('wall_s', -1), r['harness'].rsplit('.', 1)[-1], r.get('label') or r.get('prefixes'),
-                      r.get('paths'), len(r.get('violations', [])), (r.get('error') or '')[-200:].replace('\n', ' | ')), file=sys.stderr, flush=True)
+                      r.get('paths'), len(r.get('violations', [])), (str(r.get('unsupported') or '') + (r.get('error') or ''))[-200:].replace('\n', ' | ')), file=sys.stderr, flush=True)
         wave = nxt
         njobs += len(nxt)
     jobs = [None] * njobs
